@@ -131,6 +131,7 @@ PROPS["C15"] = {
     "parts": [
         SAN("router_histories", "c15_router.cpp", [], 60, 900),
         SAN("cola_api", "c15_cola_api.cpp", [], 60, 900),
+        SAN("dialect_api", "c15_dialect_api.cpp", [], 60, 900),
         SAN("vpsc", "c01_vpsc.cpp", ["--prop", "C01"], 12, 300, 10),
         SAN("routing", "c03_routing.cpp", ["--prop", "C03"], 15, 300),
         SAN("incremental", "c06_incremental.cpp", [], 12, 300),
